@@ -574,8 +574,17 @@ impl Locale {
             }
             if let Some((base_key, rule_type, plural_form)) = Self::is_possible_plural(&key, &value)
             {
-                let map = possible_plurals.entry(base_key.to_owned()).or_default();
-                map.insert(plural_form, (key, rule_type, value));
+                let base_key = base_key.to_owned();
+                let map = possible_plurals.entry(base_key.clone()).or_default();
+                if map.insert(plural_form, (key, rule_type, value)).is_some() {
+                    // `key_one` and `key_ordinal_one`: the same form for both rule types.
+                    key_path.push_key(Key::try_new(&base_key)?);
+                    return Err(Error::ConflictingPluralRuleType {
+                        locale: locale.clone(),
+                        key_path: std::mem::take(key_path),
+                    }
+                    .into());
+                }
             } else {
                 self.keys.insert(key, value);
             }
